@@ -30,10 +30,12 @@ def sv_templates(thorough):
     for kind in ("fact", "goal"):
         for pred in ("P", "Z"):
             for tau in ("s0", "v"):
-                for timing in ("free", "at0", "at5", "0to5", "zero@5", "chain", "5to10", "pin0to5", "pin3to8"):
+                for timing in ("free", "at0", "at5", "0to5", "zero@5", "chain", "5to10", "pin0to5", "pin3to8", "0toGt5"):
                     if not thorough and kind == "goal" and timing in ("5to10", "zero@5") and pred == "Z":
                         continue
                     if not thorough and timing == "pin3to8" and (tau == "v" or pred == "Z"):
+                        continue
+                    if not thorough and timing == "0toGt5" and tau == "v":
                         continue
                     if not thorough and tau == "v" and timing in ("free", "at5"):
                         continue
@@ -60,6 +62,9 @@ def sv_atom_text(i, t, prev):
         args += ["start: 0.0", "end: 5.0", "duration: 5.0"]
     elif timing == "pin3to8":
         args += ["start: 3.0", "end: 8.0", "duration: 5.0"]
+    elif timing == "0toGt5":  # a strict bound: the end is 5 + eps or later
+        args.append("start: 0.0")
+        post.append("%s.end > 5.0;" % name)
     elif timing == "chain" and prev is not None:
         post.append("%s.start == %s.end;" % (name, prev))
     s = "%s %s = new %s.%s(%s);" % (kind, name, tau if tau != "v" else "v%d" % i, pred, ", ".join(args))
@@ -509,6 +514,9 @@ def sv_has_sequential_plan(m):
             fix(s, 0); fix(e, 5)
         elif timing == "pin3to8":
             fix(s, 3); fix(e, 8)
+        elif timing == "0toGt5":
+            fix(s, 0)
+            row([(e, -1)], -5, True)  # end > 5
         elif timing == "chain" and i > 0:
             row([(s, 1), (2 * (i - 1) + 1, -1)], 0)
             row([(s, -1), (2 * (i - 1) + 1, 1)], 0)
